@@ -8,6 +8,9 @@
 
 mod common;
 mod follow;
+mod val;
+mod sql;
+mod engine;
 
 use std::process::exit;
 
@@ -28,6 +31,7 @@ fn main() {
             let report = match args[2].as_str() {
                 "follow" => follow::replay(&cases),
                 "follow-exec" => follow::replay_exec(&cases),
+                "engine" => engine::replay(&cases),
                 m => { eprintln!("unknown module {}", m); exit(2) }
             };
             common::write_json(&args[4], &report);
